@@ -131,9 +131,15 @@ template <typename V>
 decltype(auto) at_idx(V& v, const std::vector<size_t>& idx) {
     using U = meta::remove_cvref_t<V>;
     constexpr auto D = meta::fixed_dim_v<U>;
-    if constexpr (!meta::is_fail_v<decltype(D)> && !meta::is_view_v<U> && !meta::is_dynamic_index_array_v<meta::remove_cvref_t<decltype(nm::shape(v))>>) {
+    using shape_type = meta::remove_cvref_t<decltype(nm::shape<false, true>(v))>;
+    constexpr auto L = meta::len_v<shape_type>;
+    if constexpr (!meta::is_fail_v<decltype(D)>) {
         std::array<size_t, (size_t)D> fi{};
         for (size_t i = 0; i < (size_t)D; i++) fi[i] = idx[i];
+        return nm::apply_at(v, fi);
+    } else if constexpr ((L > 0)) {
+        std::array<size_t, (size_t)L> fi{};
+        for (size_t i = 0; i < (size_t)L; i++) fi[i] = idx[i];
         return nm::apply_at(v, fi);
     } else {
         return nm::apply_at(v, idx);
